@@ -31,10 +31,41 @@ def plan (tier, seed):
     return [dict (i = i, seed = seed) for i in range (n)]
 # end def plan
 
+def ratio_family (rng):
+    """ two or three thick wires joined end to end whose segment lengths differ by a large factor at the junction """
+    f    = float (rng.choice (gen.FREQS))
+    lam  = gen.C_MHZ / f
+    segl = lam / float (rng.uniform (25, 45))
+    ratio = float (rng.choice ([3, 5, 7, 9.5, 12, 20]))
+    short = segl / ratio
+    rad  = min (lam * float (rng.uniform (1.3e-4, 4e-4)), short / 3.2)
+    n1, n2 = int (rng.integers (3, 8)), int (rng.integers (2, 6))
+    R    = gen.rot_matrix (rng)
+    ang  = np.radians (float (rng.uniform (60, 180)))
+    a    = R @ np.array ([-n1 * segl, 0, 0.])
+    o    = np.zeros (3)
+    b    = R @ (np.array ([np.cos (np.pi - ang), np.sin (np.pi - ang), 0.]) * n2 * short)
+    geo  = [gen.wire (n1, a, o, rad), gen.wire (n2, o, b, rad)]
+    if rng.random () < 0.5:
+        d = (b - o) / np.linalg.norm (b - o)
+        geo.append (gen.wire (int (rng.integers (2, 5)), b, b + d * segl * 3, rad))
+    for g in geo:
+        if rng.random () < 0.5:
+            g ['p1'], g ['p2'] = g ['p2'], g ['p1']
+    k  = int (rng.integers (1, n1))
+    at = a + (o - a) * k / n1
+    return dict (f = f, geo = geo, fam = 'ratio%g' % ratio, media = None, loads = [], ratio = ratio
+                , feeds = [dict (at = at.tolist (), dir = (o - a).tolist ()), dict (at = o.tolist (), dir = (o - a).tolist ())])
+# end def ratio_family
+
 def make (c):
     rng = np.random.default_rng ([c ['seed'], 6, c ['i']])
     sym = bool (rng.random () < 0.2)
-    if sym:
+    if c ['i'] % 12 == 11:
+        sym  = False
+        spec = ratio_family (np.random.default_rng ([c ['seed'], 62, c ['i']]))
+        gen.add_sources (rng, spec, nmax = 1)
+    elif sym:
         spec = symmetric (rng)
     elif rng.random () < 0.15:
         # arc / helix with wires on its ends (first and last segment of the curve differ in direction)
@@ -185,6 +216,24 @@ def variant (spec, mask = None, perm = None, tags = None, split = None):
     return s
 # end def variant
 
+def exact_on_neighbour (m):
+    """ True if the midpoint of some segment lies within (d0 + d3) <= 1.1 lengths of ANOTHER segment of the same or
+        a connected thick wire (radius above 1e-4 wavelengths): there the program integrates half of that segment
+        and doubles it, as for the segment's own term, and which half depends on the direction of the wire """
+    segs = [(g, sg) for g in m.geo for sg in g.segments]
+    for ga, sa in segs:
+        if ga.r <= m.srm:
+            continue
+        a, b = np.asarray (sa.p1, float), np.asarray (sa.p2, float)
+        for gb, sb in segs:
+            if sb is sa or not (gb is ga or ga.is_connected (gb)):
+                continue
+            x = (np.asarray (sb.p1, float) + np.asarray (sb.p2, float)) / 2
+            if (np.linalg.norm (x - a) + np.linalg.norm (x - b)) / sa.seg_len <= 1.1:
+                return True
+    return False
+# end def exact_on_neighbour
+
 def observe_all (m, pts):
     observe.solve (m)
     out = dict (field = observe.current_field (m), Z = [complex (s.impedance) for s in m.sources], cond = observe.cond_number (m))
@@ -205,6 +254,10 @@ def check (c):
     base = variant (spec)
     m0   = gen.build (base)
     ok, why, facts = gen.validity (m0, seg_max = 1 / 10., check_junction_ratio = None)
+    if spec.get ('ratio'):
+        # inside the domain the property states (joined wires), outside the modelling rules on segment ratio / radius
+        why = [w for w in why if w not in ('adjacent segment ratio > 2.1', 'segment < 8 radii', 'segment < lambda/200')]
+        ok  = not why
     if not ok:
         return dict (status = 'discard', reason = 'validity: ' + why [0])
     var  = spec ['var']
@@ -300,6 +353,12 @@ def check (c):
         return dict (status = 'discard', reason = 'no variant')
     sig = gen.signature (base, m0, extra = ['+'.join (sorted (kinds))] + (['dist-' + spec ['dist']['kind']] if spec.get ('dist') else []))
     jt = [x for x in gen.junction_clusters (m0) if len (x) > 1]
+    if viol and exact_on_neighbour (m0):
+        # known finding: the on-wire (exact) kernel, meant for a segment's own term, is switched on by
+        # (d0 + d3) / length <= 1.1, which the midpoint of a much shorter neighbouring segment also satisfies
+        for v in viol:
+            if v ['key'] != observe.IMP_KEY:
+                v ['key'] = 'exact-kernel-on-short-neighbour'
     if viol and spec.get ('dist'):
         # known finding: a lossy / insulated wire on a junction of three or more wires. The deviation is classified as
         # that finding only if a loaded object takes part in such a junction and the same descriptions agree
